@@ -64,6 +64,15 @@ def _limit(tag, lim):
     return f'<{tag}{a}>{"" if v is None else val_str(v)}</{tag}>'  # no value: INFINITE limits
 
 
+def phys_xml(d) -> str:
+    """PHYSICAL-TYPE of a simple DOP with its optional display hints (DISPLAY-RADIX attribute, PRECISION child)"""
+    radix = f' DISPLAY-RADIX="{d.radix}"' if getattr(d, "radix", None) is not None else ""
+    prec = getattr(d, "precision", None)
+    if prec is None:
+        return f'<PHYSICAL-TYPE BASE-DATA-TYPE="{d.phys}"{radix}/>'
+    return f'<PHYSICAL-TYPE BASE-DATA-TYPE="{d.phys}"{radix}><PRECISION>{prec}</PRECISION></PHYSICAL-TYPE>'
+
+
 def compu_xml(cm) -> str:
     if isinstance(cm, D.Identical):
         return "<COMPU-METHOD><CATEGORY>IDENTICAL</CATEGORY></COMPU-METHOD>"
@@ -171,7 +180,7 @@ class Emitter:
         if isinstance(d, D.SimpleDop):
             i = self.new_id("dop")
             self.sec["dop"].append(f'<DATA-OBJECT-PROP ID="{i}"><SHORT-NAME>{i}</SHORT-NAME>{compu_xml(d.compu)}'
-                                   f'{dct_xml(d.dct, ctx)}<PHYSICAL-TYPE BASE-DATA-TYPE="{d.phys}"/></DATA-OBJECT-PROP>')
+                                   f'{dct_xml(d.dct, ctx)}{phys_xml(d)}</DATA-OBJECT-PROP>')
         elif isinstance(d, D.DtcDop):
             i = self.new_id("dtcdop")
             self.memo[key] = i
